@@ -13,7 +13,8 @@ undone by the harness:
   `masked_scatter_` into the `(H', N, C)` buffer and the final `if batch_first:
   targets.transpose(0, 1)`;
 * `hardOCDLossT` — the argument checks, `optimal_completion(padding=ignore_index,
-  exclude_last=True)`, cross entropy on the flattened `(A, B, C)` cells (layout-agnostic),
+  exclude_last=True)`, cross entropy on the flattened `(A, B, C)` cells (layout-agnostic; its
+  `IndexError` for a listed target outside the class range: `badTarget`),
   `masked_fill`, division by the clamped count, and the three reductions with
   `seq_dim = 1 if batch_first else 0`.
 
@@ -153,6 +154,14 @@ def badEos (eos : Option Int) (ignore : Int) (V : Nat) : Bool :=
   | some e => decide (e < 0) || decide ((V : Int) ≤ e) || decide (e = ignore)
   | none => false
 
+/-- `cross_entropy` on a target that is neither `ignore_index` nor a class index raises
+`IndexError: Target … is out of bounds.`: some listed (non-padding) entry of `optimals` lies outside
+`[0, V)`. (Without this check the model would read `lsm` / `weight` at a clamped position — class 0 for a
+negative token, the default for a token `≥ V` — and return a number where the code raises.) -/
+def badTarget (ignore : Int) (V : Nat) (opt : Tens3 Int) : Bool :=
+  (List.range opt.d0).any (fun a => (List.range opt.d1).any (fun b =>
+    (opt.vec ignore a b).any (fun s => s != ignore && (decide (s < 0) || decide ((V : Int) ≤ s)))))
+
 inductive LossOut where
   | scalar (q : Rat)
   | matrix (t : Tens2 Rat)
@@ -172,6 +181,8 @@ def hardOCDLossT (cfg : Cfg) (bf : Bool) (red : Reduction) (w : Int → Rat)
       -- cross_entropy on logits.flatten(0, -2) [(H·N·C, V)] and optimals.flatten() [H'·N·C]:
       -- Expected input batch_size to match target batch_size
       if opt.d0 * opt.d1 * opt.d2 ≠ lsm.d0 * lsm.d1 * opt.d2 then .error "ValueError"
+      -- Target … is out of bounds (a listed target that is no class index)
+      else if badTarget cfg.padding lsm.d2 opt then .error "IndexError"
       else
         let L := lossNoneT cfg.padding w lsm opt
         .ok (match red with
